@@ -47,3 +47,108 @@ pub fn n_palpable(difficulty: &Difficulty, map: &Beatmap) -> usize {
 pub fn n_bananas(start_time: f64, end_time: f64) -> usize {
     BananaShower::new(start_time, end_time).n_bananas
 }
+
+/// A palpable object after `convert_objects` (sorted, hyper-dash initialised).
+#[derive(Copy, Clone, Debug, PartialEq)]
+pub struct PalpableSummary {
+    pub x: f32,
+    pub x_offset: f32,
+    pub start_time: f64,
+    pub dist_to_hyper_dash: f32,
+    pub hyper_dash: bool,
+}
+
+/// Everything the catch `Movement` skill consumes and produces for a map.
+#[derive(Clone, Debug, PartialEq)]
+pub struct CatchSkillTrace {
+    pub clock_rate: f64,
+    /// `map_attrs.cs as f32`, the argument of `convert_objects` and
+    /// `Catcher::calculate_catch_width`.
+    pub cs: f32,
+    /// The half-width handed to `Movement::new`.
+    pub half_catcher_width: f32,
+    /// All palpable objects (before `take(passed_objects)`).
+    pub objects: Vec<PalpableSummary>,
+    /// What `strain_value_at` returned per processed difficulty object.
+    pub object_strains: Vec<f64>,
+    /// `Movement::into_difficulty_value`.
+    pub difficulty_value: f64,
+}
+
+/// Runs `DifficultyValues::calculate` exactly like `catch::difficulty::difficulty`
+/// does and reports the skill's inputs and outputs.
+pub fn skill_trace(
+    difficulty: &Difficulty,
+    map: &Beatmap,
+) -> Result<CatchSkillTrace, crate::model::mode::ConvertError> {
+    use crate::any::difficulty::skills::StrainSkill;
+
+    let map = map.convert_ref(
+        rosu_map::section::general::GameMode::Catch,
+        difficulty.get_mods(),
+    )?;
+    let map_attrs = map.attributes().difficulty(difficulty).build();
+    let mut count = ObjectCountBuilder::new_regular(difficulty.get_passed_objects());
+
+    let objects = convert_objects(
+        &map,
+        &mut count,
+        difficulty.get_mods().reflection(),
+        difficulty.get_hardrock_offsets(),
+        map_attrs.cs as f32,
+    )
+    .iter()
+    .map(|o| PalpableSummary {
+        x: o.x,
+        x_offset: o.x_offset,
+        start_time: o.start_time,
+        dist_to_hyper_dash: o.dist_to_hyper_dash,
+        hyper_dash: o.hyper_dash,
+    })
+    .collect();
+
+    let values = super::difficulty::DifficultyValues::calculate(difficulty, &map);
+    let object_strains = values.movement.verif_object_strains().to_vec();
+    let half_catcher_width = values.movement.verif_half_catcher_width();
+
+    Ok(CatchSkillTrace {
+        clock_rate: difficulty.get_clock_rate(),
+        cs: map_attrs.cs as f32,
+        half_catcher_width,
+        objects,
+        object_strains,
+        difficulty_value: values.movement.into_difficulty_value(),
+    })
+}
+
+/// The `diff_objects` / hyper-dash view of the gradual calculator: the same
+/// palpable summaries as [`skill_trace`] but obtained the way
+/// `CatchGradualDifficulty::new` obtains them (gradual count builder).
+pub fn gradual_palpables(
+    difficulty: &Difficulty,
+    map: &Beatmap,
+) -> Result<Vec<PalpableSummary>, crate::model::mode::ConvertError> {
+    let map = map.convert_ref(
+        rosu_map::section::general::GameMode::Catch,
+        difficulty.get_mods(),
+    )?;
+    let map_attrs = map.attributes().difficulty(difficulty).build();
+    let mut count = ObjectCountBuilder::new_gradual();
+
+    Ok(convert_objects(
+        &map,
+        &mut count,
+        difficulty.get_mods().reflection(),
+        difficulty.get_hardrock_offsets(),
+        map_attrs.cs as f32,
+    )
+    .iter()
+    .map(|o| PalpableSummary {
+        x: o.x,
+        x_offset: o.x_offset,
+        start_time: o.start_time,
+        dist_to_hyper_dash: o.dist_to_hyper_dash,
+        hyper_dash: o.hyper_dash,
+    })
+    .collect())
+}
